@@ -60,6 +60,7 @@ def gworld (t : Table) (v : View) : World M GV where
   int := .int
   str := .str
   list := .list
+  newList vs := pure (.list vs)
   tuple := .list
   global n := if n == "set" then pure (.fn .setFn) else throw "NameError"
   truthy
